@@ -2,7 +2,7 @@
 //! directly on a long-lived 64 KiB buffer that keeps stale content from earlier, larger datagrams —
 //! exactly how the server calls it — and Grease::add_errors on real responses (C02).
 use crate::rig::*;
-use crate::srv::Gen;
+use crate::wire::Gen;
 use crate::util::*;
 use crate::Ctx;
 use roughenough::grease::Grease;
